@@ -19,7 +19,7 @@ META = {
     "absent), serial as 8 lower-case hex digits. distinct = distinct (entry point, identity).",
     "explanation": "bounded-exhaustive enumeration; each case is one public call against the reference target",
     "assumptions": [
-        "vendor / product-type names are read from pycomm3.cip.status_info as data (int keys only)",
+        "vendor / product-type names: golden/identity_tables.json (the tables as shipped at the pinned commit) for every id listed there, the library table for ids added later",
         "keyswitch texts come from golden/keyswitch.json (Rockwell KB 28917)",
         "ModuleIdentityObject is the only identity type the library can encode; ids without a table entry cannot be encoded and are skipped for the round-trip clause",
     ],
@@ -57,6 +57,11 @@ def _tables():
 
     ven = {k: v for k, v in S.VENDORS.items() if isinstance(k, int)}
     pt = {k: v for k, v in S.PRODUCT_TYPES.items() if isinstance(k, int)}
+    # the registered names as shipped at the pinned commit are the reference (golden/identity_tables.json): later versions may ADD
+    # ids (the library's own table decides those), but an id that had a name keeps it
+    g = json.load(open(os.path.join(os.path.dirname(GOLDEN_KEY), "identity_tables.json")))
+    ven.update({int(k): v for k, v in g["vendors"].items()})
+    pt.update({int(k): v for k, v in g["product_types"].items()})
     return ven, pt
 
 
